@@ -89,10 +89,12 @@ type Case struct {
 }
 
 type pkgState struct {
-	spec    *Spec
-	dir     string
-	genFile string // path of the generated file of the definition under test
-	c       Case
+	spec     *Spec
+	dir      string
+	genFile  string   // path of the generated file of the (first) definition under test
+	genFiles []string // all generated files under test (one per generator invocation)
+	parts    []*Spec  // the invocations of the package (the spec itself unless Tool is "multi")
+	c        Case
 }
 
 func goEnv(bin string) []string {
@@ -172,50 +174,92 @@ func writeModule(farm, repo string) error {
 	return os.WriteFile(filepath.Join(farm, "go.sum"), []byte(strings.Join(lines, "\n")+"\n"), 0o644)
 }
 
+// renderPart renders one generator invocation: its files (definition file = "b_def.go"), the
+// name of its output file, the go:generate command, label, shapes and basic trait kinds.
+func renderPart(pkg string, s *Spec) (files map[string]string, gen, cmd, label string, shapes, ks []string, err error) {
+	switch s.Tool {
+	case "genum":
+		files = renderEnum(pkg, s.Enum, s.GOpts)
+		return files, "b_def.genum.go", "genum " + strings.Join(genumArgs(s.Enum, s.GOpts), " "), s.Enum.Label,
+			enumShapes(s.Enum, s.GOpts), enumKinds(s.Enum), nil
+	case "gerror":
+		cmd = "gerror --types=" + strings.Join(s.Err.Types, ",")
+		if s.Err.SkipConvert {
+			cmd += " --skipConvertGen"
+		}
+		return renderErr(pkg, s.Err), "b_def.gerror.go", cmd, s.Err.Label, errShapes(s.Err), nil, nil
+	case "gsort":
+		return renderSort(pkg, s.Sort), "b_def.gsort.go", "gsort -types=" + s.Sort.Type, s.Sort.Label, sortShapes(s.Sort), nil, nil
+	case "canary":
+		files = map[string]string{"b_def.go": "package " + pkg + "\n\n//go:generate cp gen.txt b_def.canary.go\n\n// T is a canary.\ntype T int\n",
+			"gen.txt": strings.ReplaceAll(canaryBodies[s.Kind], "PKG", pkg)}
+		return files, "b_def.canary.go", "cp gen.txt b_def.canary.go", s.Kind, nil, nil, nil
+	}
+	return nil, "", "", "", nil, nil, fmt.Errorf("unknown tool %q", s.Tool)
+}
+
 func (p *pkgState) prepare(farm string) error {
 	s := p.spec
 	p.dir = filepath.Join(farm, s.ID)
 	if err := os.MkdirAll(p.dir, 0o755); err != nil {
 		return err
 	}
-	var files map[string]string
 	c := Case{ID: s.ID, Tool: s.Tool, Kind: s.Kind, Spec: s, Flags: map[string]bool{}, Kinds: []string{}, Shapes: []string{},
 		Own: "farm/" + s.ID, Imports: [][2]string{}, Refs: []Ref{}}
+	p.parts = []*Spec{s}
+	if s.Tool == "multi" {
+		p.parts = s.Parts
+		c.Label = s.Label
+		c.Shapes = append(c.Shapes, "multi_invocation")
+	}
+	files := map[string]string{}
+	var cmds []string
+	for i, ps := range p.parts {
+		fs, gen, cmd, label, shapes, ks, err := renderPart(s.ID, ps)
+		if err != nil {
+			return err
+		}
+		suffix := ""
+		if s.Tool == "multi" {
+			suffix = fmt.Sprint(i + 1)
+			for _, sh := range shapes {
+				if !contains(c.Shapes, sh) {
+					c.Shapes = append(c.Shapes, sh)
+				}
+			}
+			if !contains(c.Shapes, "part_"+ps.Tool) {
+				c.Shapes = append(c.Shapes, "part_"+ps.Tool)
+			} else if !contains(c.Shapes, "two_"+ps.Tool+"_invocations") {
+				c.Shapes = append(c.Shapes, "two_"+ps.Tool+"_invocations")
+			}
+		} else {
+			c.Label = label
+			c.Shapes = append(c.Shapes, shapes...)
+		}
+		for _, k := range ks {
+			if !contains(c.Kinds, k) {
+				c.Kinds = append(c.Kinds, k)
+			}
+		}
+		for n, body := range fs {
+			if n == "b_def.go" {
+				n = "b_def" + suffix + ".go"
+			}
+			files[n] = body
+		}
+		gen = strings.Replace(gen, "b_def.", "b_def"+suffix+".", 1)
+		p.genFiles = append(p.genFiles, filepath.Join(p.dir, gen))
+		cmds = append(cmds, cmd)
+	}
+	p.genFile = p.genFiles[0]
+	c.Generate = strings.Join(cmds, " ; ")
 	switch s.Tool {
 	case "genum":
-		files = renderEnum(s.ID, s.Enum, s.GOpts)
-		p.genFile = filepath.Join(p.dir, "b_def.genum.go")
-		c.Label = s.Enum.Label
 		c.Flags = map[string]bool{"GenJSON": s.GOpts.JSON, "GenYAML": s.GOpts.YAML, "GenText": s.GOpts.Text,
 			"CaseInsensitive": s.GOpts.CI, "DisableTraits": s.GOpts.DisableTraits}
 		c.Parsable = len(s.GOpts.Parsable) > 0
-		c.Kinds = append(c.Kinds, enumKinds(s.Enum)...)
-		c.Shapes = append(c.Shapes, enumShapes(s.Enum, s.GOpts)...)
-		c.Generate = "genum " + strings.Join(genumArgs(s.Enum, s.GOpts), " ")
 	case "gerror":
-		files = renderErr(s.ID, s.Err)
-		p.genFile = filepath.Join(p.dir, "b_def.gerror.go")
-		c.Label = s.Err.Label
 		c.Flags = map[string]bool{"SkipConvertGen": s.Err.SkipConvert}
-		c.Shapes = append(c.Shapes, errShapes(s.Err)...)
-		c.Generate = "gerror --types=" + strings.Join(s.Err.Types, ",")
-		if s.Err.SkipConvert {
-			c.Generate += " --skipConvertGen"
-		}
-	case "gsort":
-		files = renderSort(s.ID, s.Sort)
-		p.genFile = filepath.Join(p.dir, "b_def.gsort.go")
-		c.Label = s.Sort.Label
-		c.Shapes = append(c.Shapes, sortShapes(s.Sort)...)
-		c.Generate = "gsort -types=" + s.Sort.Type
-	case "canary":
-		files = map[string]string{"b_def.go": "package " + s.ID + "\n\n//go:generate cp gen.txt b_def.canary.go\n\n// T is a canary.\ntype T int\n",
-			"gen.txt": strings.ReplaceAll(canaryBodies[s.Kind], "PKG", s.ID)}
-		p.genFile = filepath.Join(p.dir, "b_def.canary.go")
-		c.Label = s.Kind
-		c.Generate = "cp gen.txt b_def.canary.go"
-	default:
-		return fmt.Errorf("unknown tool %q", s.Tool)
 	}
 	c.Files = files
 	p.c = c
@@ -227,17 +271,16 @@ func (p *pkgState) prepare(farm string) error {
 	return nil
 }
 
-func (p *pkgState) assertions() string {
-	s := p.spec
+func assertionsOf(pkg string, s *Spec) string {
 	switch s.Tool {
 	case "genum":
-		return assertEnum(s.ID, s.Enum, s.GOpts)
+		return assertEnum(pkg, s.Enum, s.GOpts)
 	case "gerror":
-		return assertErr(s.ID, s.Err)
+		return assertErr(pkg, s.Err)
 	case "canary":
-		return "package " + s.ID + "\n"
+		return "package " + pkg + "\n"
 	default:
-		return assertSort(s.ID, s.Sort)
+		return assertSort(pkg, s.Sort)
 	}
 }
 
@@ -263,14 +306,12 @@ func (p *pkgState) collectRefs() {
 			results[fd.Name.Name] = b.String()
 		}
 	}
-	if hasKind(s.Enum, "duration") {
-		p.c.Imports = append(p.c.Imports, [2]string{"time", "xtime"})
-	}
-	if hasKind(s.Enum, "reflect_kind") {
-		p.c.Imports = append(p.c.Imports, [2]string{"reflect", "reflect"})
-	}
-	if hasKind(s.Enum, "dot_duration") {
-		p.c.Imports = append(p.c.Imports, [2]string{"time", "."})
+	for _, im := range enumImports(s.Enum) {
+		alias := im[0]
+		if alias == "" {
+			alias = im[1][strings.LastIndex(im[1], "/")+1:] // package name of the std packages used here
+		}
+		p.c.Imports = append(p.c.Imports, [2]string{im[1], alias})
 	}
 	sl := sortedLines(s.Enum)
 	if len(sl) == 0 {
@@ -297,7 +338,7 @@ func (p *pkgState) collectRefs() {
 				r.TypeName = "Other"
 			case "other_enum2":
 				r.TypeName = "Extra"
-			case "duration", "dot_duration":
+			case "duration", "dot_duration", "tdur":
 				r.PkgPath, r.PkgName, r.TypeName = "time", "time", "Duration"
 			case "reflect_kind":
 				r.PkgPath, r.PkgName, r.TypeName = "reflect", "reflect", "Kind"
@@ -348,12 +389,14 @@ func (p *pkgState) classify(msgs []string) []ErrClass {
 		}
 		out = append(out, c)
 	}
-	typ := ""
+	parseNames := map[string]bool{}
 	traitNames := map[string]bool{}
-	if p.spec.Tool == "genum" {
-		typ = p.spec.Enum.Type
-		for _, t := range p.spec.Enum.Traits {
-			traitNames[traitName(t)] = true
+	for _, ps := range p.parts {
+		if ps.Tool == "genum" {
+			parseNames["Parse"+ps.Enum.Type] = true
+			for _, t := range ps.Enum.Traits {
+				traitNames[traitName(t)] = true
+			}
 		}
 	}
 	for _, m := range msgs {
@@ -366,14 +409,14 @@ func (p *pkgState) classify(msgs []string) []ErrClass {
 		fmt.Sscan(mm[2], &line)
 		where := "definition"
 		switch {
-		case file == "zz_assert.go":
+		case strings.HasPrefix(file, "zz_assert"):
 			where = "assertion"
 		case strings.Contains(file, ".genum.go") || strings.Contains(file, ".gerror.go") || strings.Contains(file, ".gsort.go"):
 			fn := enclosingFunc(filepath.Join(p.dir, file), line)
 			switch {
 			case fn == "":
 				where = "generated:top-level"
-			case typ != "" && fn == "Parse"+typ:
+			case parseNames[fn]:
 				where = "generated:Parse<T>"
 			case traitNames[fn]:
 				where = "generated:<trait accessor>"
@@ -454,7 +497,7 @@ func parseSections(out string) map[string][]string {
 }
 
 func galCase(c Case) string {
-	tool := map[string]string{"genum": "TGenum", "gerror": "TGerror", "gsort": "TGsort"}[c.Tool]
+	tool := map[string]string{"genum": "TGenum", "gerror": "TGerror", "gsort": "TGsort", "multi": "TMulti"}[c.Tool]
 	var names []string
 	for n := range c.Flags {
 		names = append(names, n)
@@ -641,8 +684,12 @@ func main() {
 			p.c.Obs.Fallback = strings.Contains(log, "formatting of source file failed")
 			p.c.Obs.GenLog = tail(log, 1500)
 			p.c.Obs.Secs = time.Since(t).Seconds()
-			_, err := os.Stat(p.genFile)
-			p.c.Obs.File = err == nil
+			p.c.Obs.File = true
+			for _, g := range p.genFiles {
+				if _, err := os.Stat(g); err != nil {
+					p.c.Obs.File = false
+				}
+			}
 		}(p)
 	}
 	wg.Wait()
@@ -652,8 +699,10 @@ func main() {
 	unformatted := map[string]bool{}
 	var gens []string
 	for _, p := range pk {
-		if p.c.Obs.File {
-			gens = append(gens, p.genFile)
+		for _, g := range p.genFiles {
+			if _, err := os.Stat(g); err == nil {
+				gens = append(gens, g)
+			}
 		}
 	}
 	for i := 0; i < len(gens); i += 400 {
@@ -673,8 +722,14 @@ func main() {
 	// 3. assertions next to every file that was generated without an error report
 	for _, p := range pk {
 		if p.c.Obs.Exit == 0 && p.c.Obs.File {
-			if err := os.WriteFile(filepath.Join(p.dir, "zz_assert.go"), []byte(p.assertions()), 0o644); err != nil {
-				panic(err)
+			for i, ps := range p.parts {
+				name := "zz_assert.go"
+				if len(p.parts) > 1 {
+					name = fmt.Sprintf("zz_assert%d.go", i+1)
+				}
+				if err := os.WriteFile(filepath.Join(p.dir, name), []byte(assertionsOf(p.spec.ID, ps)), 0o644); err != nil {
+					panic(err)
+				}
 			}
 		}
 	}
@@ -693,7 +748,12 @@ func main() {
 	canaries := []Case{}
 	for _, p := range pk {
 		o := &p.c.Obs
-		o.GofmtClean = o.File && !unformatted[p.genFile]
+		o.GofmtClean = o.File
+		for _, g := range p.genFiles {
+			if unformatted[g] {
+				o.GofmtClean = false
+			}
+		}
 		msgs := bsec[p.spec.ID]
 		o.BuildOK = len(msgs) == 0
 		if len(msgs) > 12 {
